@@ -780,6 +780,10 @@ def body_validate_arguments(ctx: Ctx, pid: str):
                 ok = a == ("a", m1["c"], "arg")
                 ctx.check(ok, rule + ".pairing", r.site, cons + "[nonexclusive]", found=f"_validate_arguments({tstr(e)}, {tstr(a)})",
                           required="enable and argument of the same call")
+                # every active call has to pass: the per-call results are and-reduced
+                red = pmatch("Cat(Q_g).all()", r.value)
+                ctx.check(red is not None and red["g"][0] == "lc" and red["g"][3][0][0] == m1["c"] and not red["g"][3][0][2], rule + ".all-calls", r.site, cons + "[nonexclusive].reduction", found=tstr(r.value)[:160],
+                          required="Cat(validator result of every call).all(): one failing active call blocks the transaction")
             else:
                 ok = False
                 q = to_formula(e)
